@@ -2002,6 +2002,9 @@ func (x *Exec) isNil(v Value) *Term {
 	case *Iface:
 		return mkBool(t.dyn == nil)
 	case *AbsObj:
+		if t.fam && t.nilT != nil {
+			return t.nilT
+		}
 		return tFalse
 	case *SliceV:
 		if t.cell != nil && t.nilT != nil {
